@@ -196,6 +196,103 @@ def option_and_footer_groups(drv, tier, rng, fls):
     return groups
 
 
+EXPECT = {}      # case line -> the exact result line the ground truth of the file demands (one-shot reads of pq.py files)
+
+
+def raw_col(f, m, opts, rg, col, ops, tag):
+    return C02.Case(kind="col", fs=f, rg=rg, col=col, mode=m, ops=ops, tag=tag, mline=None,
+                    line=f"col {m} {opts} {f.impl_text()} {rg} {col} {ops}")
+
+
+def raw_bat(f, m, opts, bs, proj, tag):
+    return C02.Case(kind="bat", fs=f, mode=m, bs=bs, proj=proj, pcols=None, tag=tag, mline=None,
+                    line=f"bat {m} {opts} {f.impl_text()} {bs} {proj}")
+
+
+def nested_groups(tier, rng):
+    """nested schemas (the carquet writer cannot produce them): REQUIRED leaf inside an OPTIONAL group, inside a
+    REPEATED group, 3-level LIST; fixed width + PLAIN + uncompressed in particular.  Column reader (one-shot read
+    compared with the writer's ground truth, histories compared across modes) and batch reader, checksums on/off."""
+    groups = []
+    thorough = tier == "thorough"
+    for f in rc.nested_files(rng, thorough):
+        ncol = len(f.names)
+        for opts in ("1", "0"):
+            for c in range(ncol):
+                defs, reps, vals = f.truth[0][c]
+                md, mr = f.levels[c]
+                n = len(defs)
+                g = [raw_col(f, m, opts, 0, c, f"r{n + 1}", "nested") for m in MODES]
+                for x in g:
+                    EXPECT[x.line] = "OK " + rc.expected_oneshot(defs, reps, vals, md, mr)
+                groups.append(g)
+                for _ in range(6 if thorough else 3):
+                    h, pos = [], 0
+                    while pos < n:
+                        k = rng.randrange(1, 4)
+                        h.append((rng.choice("rrsq"), k))
+                        pos += k
+                    groups.append([raw_col(f, m, opts, 0, c, rc.ops_text(tuple(h)), "nested") for m in MODES])
+            # by name: the leaf's own name (carquet_schema_find_column matches leaf element names; the dotted paths its
+            # documentation promises are not implemented - schema.c, reported to the owner of C17)
+            projs = [f"i:{c}" for c in range(ncol)] + [f"n:{f.names[c].split('.')[-1]}" for c in range(ncol)]
+            if not f.has_repeated():
+                projs.append("all")
+            for bs in (1, 2, 3, 4, 100):
+                for proj in projs:
+                    groups.append([raw_bat(f, m, opts, bs, proj, "nested") for m in MODES])
+    return groups
+
+
+def placement_files(tier, rng):
+    """chunks at the very start / very end of the data area, in particular a dictionary-encoded LAST chunk whose
+    dictionary page is bigger than footer + 8 bytes (single column, single row group: the footer is small)"""
+    out = []
+    big_ba = [bytes([65 + i % 26]) * 56 + b"%04d" % i for i in range(40)]           # 40 x 60 bytes: 2.5 KiB dictionary
+    rows_ba = [big_ba[(i * 7) % 40] for i in range(48)]
+    big_i64 = [(1000003 * (i + 1)).to_bytes(8, "little") for i in range(300)]       # 300 x 8 bytes
+    small_i32 = [rc.value("i32", i) for i in range(48)]
+    def pages(vals, sizes):
+        o, i = [], 0
+        for sz in sizes:
+            o.append(list(vals[i:i + sz])); i += sz
+        return o
+    layouts = [
+        ("ba-dict-only", [Col("s", "ba", False)], [pages(rows_ba, [48])]),
+        ("ba-dict-only-3p", [Col("s", "ba", False)], [pages(rows_ba, [10, 30, 8])]),
+        ("i64-dict-only", [Col("k", "i64", False)], [pages(big_i64, [300])]),
+        ("i64-dict-only-null", [Col("k", "i64", True)], [pages([None if i % 5 == 2 else v for i, v in enumerate(big_i64)], [100, 200])]),
+        ("small-then-bigdict", [Col("a", "i32", False), Col("s", "ba", False)], [pages(small_i32, [48]), pages(rows_ba, [20, 28])]),
+        ("bigdict-then-small", [Col("s", "ba", False), Col("a", "i32", True)], [pages(rows_ba, [48]), pages([None if i % 4 == 1 else v for i, v in enumerate(small_i32)], [24, 24])]),
+    ]
+    for label, cols, rg in layouts:
+        for enc, codec in (("RLE_DICTIONARY", 0), ("PLAIN_DICTIONARY", 1), ("PLAIN", 0)):
+            if enc == "PLAIN" and not label.startswith("small") and tier != "thorough":
+                continue
+            fs = FileSpec(codec, cols, [rg], dict_encoded=(enc != "PLAIN"))
+            try:
+                fs.use_bytes(rc.pq_bytes(fs, encoding=enc, crc=True, rng=rng))
+            except Exception as e:
+                log(f"C03: pq.py cannot write {label} {enc}/{codec}: {e}")
+                continue
+            out.append(fs)
+    return out
+
+
+def placement_groups(tier, rng):
+    groups = []
+    for fs in placement_files(tier, rng):
+        for opts in ("1", "0"):
+            groups += requests_for(fs, opts, rng, "placement")
+            for c in range(len(fs.cols)):
+                n = len(fs.rows(0, c))
+                g = [C02.col_case(fs, 0, c, m, f"r{n + 1}", "placement", verify=opts) for m in MODES]
+                for x in g:
+                    EXPECT[x.line] = "OK " + f"r{n}:" + ".".join(rc.tok(r) for r in fs.rows(0, c))
+                groups.append(g)
+    return groups
+
+
 def footer_cases(drv, tier, rng, fls):
     """(line, expectation) for the footer-location tie.  expectation: 'ok' (a valid file), 'fail' (no mode may open
     it), 'head' (leading magic damaged: stdio does not look at it), None (whatever)"""
@@ -256,6 +353,9 @@ def run(tier):
                        "eligible and non-eligible columns, 1..3 pages per chunk, 1..3 row groups, dictionary-encoded files from "
                        "tools/pq.py; reader options sweep (buffer_size 1,7,8,9, footer_len-8..+16, file size, 4096, 65536; "
                        "num_threads 0,1,3,16; checksums on/off) and footers padded to lengths at and around 2^8..2^16; "
+                       "nested schemas from tools/pq.py (REQUIRED leaf in OPTIONAL / REPEATED group, 3-level LIST; fixed width, "
+                       "PLAIN, uncompressed and compressed) with one-shot reads compared with the writer's ground truth; "
+                       "dictionary-encoded first / last chunks with dictionaries bigger than the footer; "
                        "evaluations = requests x 3; non-trivial = everything but metadata dumps; footer tie on "
                        "damaged heads, tails and length fields")
     try:
@@ -278,7 +378,9 @@ def run(tier):
     except Exception as e:
         rep.tie_broken("tools/gen.d/reader.py could not list the reader options the code reads: " + str(e)[:200])
     fls = files(tier, rng)
-    groups = corpus_groups() + gen_cases(tier, rng, fls) + option_and_footer_groups(drv, tier, rng, fls)
+    EXPECT.clear()
+    groups = (corpus_groups() + gen_cases(tier, rng, fls) + option_and_footer_groups(drv, tier, rng, fls) +
+              nested_groups(tier, rng) + placement_groups(tier, rng))
     cases = [c for g in groups for c in g]
     lines = [c.line for c in cases]
     log(f"C03: {len(groups)} requests x 3 modes")
@@ -312,6 +414,9 @@ def run(tier):
                 {"case": g[1 if 'm' in diff else 2].line, "modes": [x.line for x in g], "got": outs})
         elif not outs[0].startswith("OK"):
             tally.violation(f"{g[0].kind}: a valid file is refused in every mode: {outs[0][:200]}", {"case": g[0].line})
+        elif g[0].line in EXPECT and outs[0] != EXPECT[g[0].line]:
+            tally.violation(f"{g[0].kind}: all three modes agree but deliver something else than the file holds (ground truth of "
+                            f"the independent writer): got {outs[0][:300]}, file holds {EXPECT[g[0].line][:300]}", {"case": g[0].line})
         elif g[0].kind == "bat" and not outs[0].endswith(" L1"):
             tally.violation("data handed out in a batch changed before the reader was closed", {"case": g[0].line, "got": outs})
     rep.cov["input_distribution"] = dist
@@ -324,7 +429,7 @@ def run(tier):
     except vlib.BuildError as e:
         rep.tie_broken("model runner does not build: " + str(e)[:600])
         return rep.finish()
-    sel = [(i, c) for i, c in enumerate(cases) if c.kind != "meta"]
+    sel = [(i, c) for i, c in enumerate(cases) if c.kind != "meta" and c.mline is not None]
     model, probs = run_sharded(runner, [c.mline for _, c in sel], timeout=3000)
     for pr in probs:
         rep.tie_broken(f"model runner died (rc={pr[1]}): {pr[2][-300:]}", pr[3])
